@@ -1,7 +1,6 @@
 /-
 Port of `Lemmas/SegmentEarlier.lean`: `find_earlier_page_break` re-slices already laid-out complete children.
-New: the children of a container fragment are column boxes, which the loop skips (`is_column: continue`) —
-nothing is found there, and (without spanning children) the missing `.index` is never read.
+New: a multi-column container is never looked into (`is_multicol`), so nothing is found there.
 -/
 import WpModel.Lemmas.ColSegPara
 
@@ -13,24 +12,11 @@ def EarlierPost (bs : List ColBox) (i : Nat) (sub : Option Resume) (kept : List 
     fragLinesList kept ++ linesFromKids bs m sub' = linesFromKids bs 0 sub ∧
     posKids bs 0 sub < posKids bs m sub'
 
-theorem findEarlierGo_allColumns (inCol noIdx : Bool) : (fs : List CFrag) → allColumns fs →
-    (findEarlierGo inCol noIdx fs).found = none ∧ (findEarlierGo inCol noIdx fs).prev = none ∧
-    (findEarlierGo inCol noIdx fs).err = false
-  | [] => by intro _; simp [findEarlierGo]
-  | x :: xs => by
-    intro h
-    simp only [allColumns] at h
-    obtain ⟨h1, h2, h3⟩ := findEarlierGo_allColumns inCol noIdx xs h.2
-    rw [findEarlierGo]
-    simp only [h3, Bool.false_eq_true, if_false, h1, h.1, if_true]
-    simp [h2]
-
 mutual
 theorem findEarlierGo_spec (inCol : Bool) : (fs : List CFrag) → ∀ (bs : List ColBox) (i : Nat) (sub : Option Resume),
     GoodList bs → FullFrom fs bs i sub →
-    (findEarlierGo inCol false fs).err = false ∧
-    ((findEarlierGo inCol false fs).found = none → (findEarlierGo inCol false fs).prev = fs.head?) ∧
-    (∀ kept r, (findEarlierGo inCol false fs).found = some (kept, r) → EarlierPost bs i sub kept r)
+    ((findEarlierGo inCol fs).found = none → (findEarlierGo inCol fs).prev = fs.head?) ∧
+    (∀ kept r, (findEarlierGo inCol fs).found = some (kept, r) → EarlierPost bs i sub kept r)
   | [] => by
     intro bs i sub _ _
     simp [findEarlierGo]
@@ -43,15 +29,15 @@ theorem findEarlierGo_spec (inCol : Bool) : (fs : List CFrag) → ∀ (bs : List
       obtain ⟨hx, hxi, hxs⟩ := hf
       simp only [GoodList] at hg
       obtain ⟨hgb, hgbs⟩ := hg
-      obtain ⟨iherr, ihprev, ihfound⟩ := findEarlierGo_spec inCol xs bs' (i + 1) none hgbs hxs
+      obtain ⟨ihprev, ihfound⟩ := findEarlierGo_spec inCol xs bs' (i + 1) none hgbs hxs
       have hxl := full_lines x b sub hx
       have hxc := full_not_column x b sub hx
       rw [findEarlierGo]
-      simp only [iherr, Bool.false_eq_true, if_false]
+      dsimp only
       split
       · -- a break was found among the later siblings
         rename_i kept r hfound
-        refine ⟨rfl, by simp, ?_⟩
+        refine ⟨by simp, ?_⟩
         intro kept' r' h
         simp only [Option.some.injEq, Prod.mk.injEq] at h
         obtain ⟨rfl, rfl⟩ := h
@@ -68,7 +54,7 @@ theorem findEarlierGo_spec (inCol : Bool) : (fs : List CFrag) → ∀ (bs : List
         split
         · -- break after x
           rename_i p hba
-          refine ⟨rfl, by simp, ?_⟩
+          refine ⟨by simp, ?_⟩
           intro kept' r' h
           simp only [Option.some.injEq, Prod.mk.injEq] at h
           obtain ⟨rfl, rfl⟩ := h
@@ -95,12 +81,12 @@ theorem findEarlierGo_spec (inCol : Bool) : (fs : List CFrag) → ∀ (bs : List
               · simp only [posKids]
                 have := pos_lt_size b sub
                 omega
-        · obtain ⟨hnr, hfe⟩ := findEarlierFrag_spec inCol x b sub hgb hx
+        · have hfe := findEarlierFrag_spec inCol x b sub hgb hx
           split
           · split
             · -- break inside x
               rename_i x' r hfeq
-              refine ⟨rfl, by simp, ?_⟩
+              refine ⟨by simp, ?_⟩
               intro kept' r' h
               simp only [Option.some.injEq, Prod.mk.injEq] at h
               obtain ⟨rfl, rfl⟩ := h
@@ -109,12 +95,10 @@ theorem findEarlierGo_spec (inCol : Bool) : (fs : List CFrag) → ∀ (bs : List
               · simp only [fragLinesList, linesFromKids, List.append_nil]
                 rw [← List.append_assoc, hl]
               · simpa only [posKids] using hp
-            · rename_i hr; exact absurd hr hnr
-            · exact ⟨rfl, by simp, by simp⟩
-          · exact ⟨rfl, by simp, by simp⟩
+            · exact ⟨by simp, by simp⟩
+          · exact ⟨by simp, by simp⟩
 theorem findEarlierFrag_spec (inCol : Bool) : (x : CFrag) → ∀ (b : ColBox) (σ : Option Resume), Good b → Full x b σ →
-    findEarlierFrag inCol x ≠ .raised ∧
-    ∀ x' r, findEarlierFrag inCol x = .found x' r →
+    ∀ x' r, findEarlierFrag inCol x = some (x', r) →
     fragLines x' ++ linesFrom b (some r) = linesFrom b σ ∧ pos b σ < pos b (some r)
   | .para id idx st n g lines => by
     intro b σ hg hf
@@ -126,25 +110,18 @@ theorem findEarlierFrag_spec (inCol : Bool) : (x : CFrag) → ∀ (b : ColBox) (
       obtain ⟨rfl, rfl, rfl, hl⟩ := hf
       simp only [Good] at hg
       simp only [findEarlierFrag]
-      cases hp : findEarlierPara id idx st n g lines with
-      | none => simp
-      | some p =>
-        obtain ⟨x0, r0⟩ := p
-        refine ⟨by simp, ?_⟩
-        intro x' r h
-        simp only [EarlierIn.found.injEq] at h
-        obtain ⟨rfl, rfl⟩ := h
-        obtain ⟨m, kept, hm1, hmn, rfl, rfl, hk⟩ :=
-          findEarlierPara_spec id idx st n g lines (paraStart σ) x0 r0 hg.2.1 hg.2.2 hl hp
-        constructor
-        · simp only [fragLines, linesFrom]
-          have : paraStart (some (Resume.node 0 (some (Resume.line (paraStart σ + m))))) = paraStart σ + m := rfl
-          rw [this, ← paraLines_split id (paraStart σ) m n (by omega), ← hk, List.map_map]
-          rfl
-        · simp only [pos]
-          have : paraStart (some (Resume.node 0 (some (Resume.line (paraStart σ + m))))) = paraStart σ + m := rfl
-          rw [this]
-          omega
+      intro x' r hp
+      obtain ⟨m, kept, hm1, hmn, rfl, rfl, hk⟩ :=
+        findEarlierPara_spec id idx st n g lines (paraStart σ) x' r hg.2.1 hg.2.2 hl hp
+      constructor
+      · simp only [fragLines, linesFrom]
+        have : paraStart (some (Resume.node 0 (some (Resume.line (paraStart σ + m))))) = paraStart σ + m := rfl
+        rw [this, ← paraLines_split id (paraStart σ) m n (by omega), ← hk, List.map_map]
+        rfl
+      · simp only [pos]
+        have : paraStart (some (Resume.node 0 (some (Resume.line (paraStart σ + m))))) = paraStart σ + m := rfl
+        rw [this]
+        omega
   | .block id idx st g kids => by
     intro b σ hg hf
     cases b with
@@ -154,15 +131,14 @@ theorem findEarlierFrag_spec (inCol : Bool) : (x : CFrag) → ∀ (b : ColBox) (
       simp only [Full] at hf
       simp only [Good] at hg
       have hgd : GoodList (bkids.drop (skipIdxOf σ)) := goodList_drop bkids _ hg.2
-      obtain ⟨herr, _, hfound⟩ := findEarlierGo_spec inCol kids _ _ _ hgd hf
-      simp only [findEarlierFrag, herr, Bool.false_eq_true, if_false]
-      cases hfd : (findEarlierGo inCol false kids).found with
+      obtain ⟨_, hfound⟩ := findEarlierGo_spec inCol kids _ _ _ hgd hf
+      simp only [findEarlierFrag]
+      cases hfd : (findEarlierGo inCol kids).found with
       | none => simp
       | some p =>
         obtain ⟨kids', r0⟩ := p
-        refine ⟨by simp, ?_⟩
         intro x' r h
-        simp only [EarlierIn.found.injEq] at h
+        simp only [Option.some.injEq, Prod.mk.injEq] at h
         obtain ⟨rfl, rfl⟩ := h
         obtain ⟨m, sub', rfl, hm, hlines, hpos⟩ := hfound kids' r0 hfd
         constructor
@@ -178,13 +154,7 @@ theorem findEarlierFrag_spec (inCol : Bool) : (x : CFrag) → ∀ (b : ColBox) (
           omega
   | .cols id idx st g kids => by
     intro b σ hg hf
-    cases b with
-    | para _ _ _ _ => simp [Full] at hf
-    | block _ _ _ => simp [Full] at hf
-    | columns _ _ _ _ bkids =>
-      simp only [Full] at hf
-      obtain ⟨h1, h2, h3⟩ := findEarlierGo_allColumns inCol true kids hf.1
-      simp [findEarlierFrag, h1, h3]
+    simp [findEarlierFrag]
   | .column _ _ _ _ _ => by
     intro b σ hg hf
     simp [Full] at hf
@@ -192,18 +162,8 @@ end
 
 theorem findEarlierList_spec (inCol : Bool) (fs : List CFrag) (bs : List ColBox) (i : Nat) (sub : Option Resume)
     (hg : GoodList bs) (hf : FullFrom fs bs i sub) :
-    findEarlierList inCol fs ≠ .raised ∧
-    ∀ kept r, findEarlierList inCol fs = .found kept r → EarlierPost bs i sub kept r := by
-  obtain ⟨herr, _, hfound⟩ := findEarlierGo_spec inCol fs bs i sub hg hf
-  simp only [findEarlierList, herr, Bool.false_eq_true, if_false]
-  cases hfd : (findEarlierGo inCol false fs).found with
-  | none => simp
-  | some p =>
-    obtain ⟨k, r0⟩ := p
-    refine ⟨by simp, ?_⟩
-    intro kept r h
-    simp only [EarlierList.found.injEq] at h
-    obtain ⟨rfl, rfl⟩ := h
-    exact hfound k r0 hfd
+    ∀ kept r, findEarlierList inCol fs = some (kept, r) → EarlierPost bs i sub kept r := by
+  obtain ⟨_, hfound⟩ := findEarlierGo_spec inCol fs bs i sub hg hf
+  exact hfound
 
 end Wp.PMC
